@@ -131,7 +131,7 @@ CLAIMED = {
   "equality for all key pairs; each modifier's check holds iff the account has the described flag / key / owner; a "
   "nesting accepts iff every layer accepts and reports the innermost failing layer's error; optional accounts absent / "
   "placeholder / present. Tie: 31 Rust nestings (depth <= 4, plain and Option) x all flags x every one-bit and one-byte "
-  "key and owner perturbation, exhaustively (36k cases), against the extracted model.",
+  "key and owner perturbation, exhaustively (88k cases incl. the same decisions on accounts with other balances / data), against the extracted model. Containers forward the checks to EVERY element: Vec<T> with its four validate-argument forms accepts iff the form fits the number of accounts and every account passes every layer (C09_vec_accepts_iff_every_account, C09_vec_no_account_skipped); second stage: 10 element types x 0..5 accounts with one bad account at every position x forms x argument counts (2.3k cases).",
   "Honest level: proof for the comparison lemma, the per-layer iff and the composition rule over the layer algebra; that "
   "each Rust modifier IS the layer the model says is established by exhaustive correspondence over the finite "
   "perturbation domain on the 31-type family (the inductive universe of nestings is represented by that family)."),
@@ -220,7 +220,7 @@ CLAIMED = {
   "cleanup argument conserves the lamport total; with all balances and the supply below 2^64 no operation panics; cached `()` arguments use "
   "the first cached funder/recipient and fail with EmptyFunderCache/EmptyRecipientCache when none. The shipped refund_rent is refuted by two "
   "witnesses (D14, fixed). Tie: 3.6k (quick) / 60k (thorough) cases + corpus through the real trait methods and AccountSetCleanup impls "
-  "(explicit, cached via derived sets with #[validate(funder|recipient)], empty cache, pre-cached other account) on native accounts with the "
+  "(explicit, cached via derived sets with #[validate(funder|recipient)], empty cache, pre-cached other account; one case in six a BorshAccount whose value changes its serialized size in the instruction before the cleanup argument writes it back and adjusts the rent, balances around the minimum of the old and of the new size) on native accounts with the "
   "simulator behind the CPI hook; balances {0, 1, half, min+-1, min, far above, 2^64-1-others}, sizes w..300, rent {0..10^9}/byte x {1.0, 2.0}.",
   "PARTIAL: same oracle and trusted base as C12. Funder/recipient distinct from the account (as in the property). BorshAccount's rent cleanups "
   "serialise first (C15). Cases outside the domain (read-only / foreign account, supply >= 2^64, where the debug build panics on overflow and "
